@@ -77,29 +77,38 @@ theorem rawWrite_ctl (env : Env) (c : Cfg) (i : Nat) (s : HState) :
       split <;> simp
     · simp
 
+theorem runInner_ctl (inner : Nat → Step) (hin : InnerOk inner) (js : List Nat) (s : HState)
+    (hm : s.marker = true) :
+    (runInner inner js s).st = s ∧ (runInner inner js s).res ≠ .blocked := by
+  induction js with
+  | nil => simp [runInner]
+  | cons j rest ih =>
+    have hi := hin j s hm
+    unfold runInner
+    simp only []
+    cases hres : (inner j s).res with
+    | ok =>
+      simp only [hi.1]
+      exact ih
+    | raised e => simp only [hres]; exact ⟨hi.1, by simp⟩
+    | blocked => exact absurd hres hi.2
+
 theorem sinkWrite_ctl (env : Env) (c : Cfg) (i : Nat) (inner : Nat → Step) (hin : InnerOk inner)
     (s : HState) (hm : s.marker = true) :
     SameCtl s (sinkWrite env c i inner s).st ∧ (sinkWrite env c i inner s).res ≠ .blocked ∧
     (sinkWrite env c i inner s).st.queue = s.queue := by
+  have hi := runInner_ctl inner hin (env.reenter i c.id) s hm
   unfold sinkWrite
   simp only []
-  cases hre : env.reenter i c.id with
-  | none =>
-    simp only []
+  cases hres : (runInner inner (env.reenter i c.id) s).res with
+  | ok =>
+    simp only [hi.1]
     have := rawWrite_ctl env c i s
     exact ⟨this.1, this.2.1, this.2.2⟩
-  | some j =>
-    simp only []
-    have hi := hin j s hm
-    cases hres : (inner j s).res with
-    | ok =>
-      simp only [hi.1]
-      have := rawWrite_ctl env c i s
-      exact ⟨this.1, this.2.1, this.2.2⟩
-    | raised e =>
-      simp only [hi.1, hres]
-      exact ⟨SameCtl.refl s, by simp, trivial⟩
-    | blocked => exact absurd hres hi.2
+  | raised e =>
+    simp only [hi.1, hres]
+    exact ⟨SameCtl.refl s, by simp, trivial⟩
+  | blocked => exact absurd hres hi.2
 
 theorem queuePut_ctl (env : Env) (c : Cfg) (i : Nat) (s : HState) :
     SameCtl s (queuePut env c i s).st ∧ (queuePut env c i s).res ≠ .blocked ∧
@@ -162,7 +171,7 @@ def lockedExpected (env : Env) (c : Cfg) (i : Nat) (s : HState) : Ret :=
     | .skipped => ⟨s, [], .ok⟩
 
 theorem locked_eq (env : Env) (c : Cfg) (i : Nat) (inner : Nat → Step) (s : HState)
-    (hq : Quiet s) (hre : env.reenter i c.id = none) :
+    (hq : Quiet s) (hre : env.reenter i c.id = []) :
     protectedLock (lockedBody env c i inner) s = lockedExpected env c i s := by
   obtain ⟨hl, hm⟩ := hq
   cases s with
@@ -170,7 +179,7 @@ theorem locked_eq (env : Env) (c : Cfg) (i : Nat) (inner : Nat → Step) (s : HS
   simp only at hl hm
   subst hl hm
   unfold protectedLock lockedBody lockedExpected handOff sinkWrite queuePut rawWrite deliver
-  simp only [hre, Gen.streamFlushAfterWrite, Gen.markerResetInFinally]
+  simp only [hre, runInner, Gen.streamFlushAfterWrite, Gen.markerResetInFinally]
   cases stopped <;> simp
   cases c.enqueue <;> simp
   · cases env.fault i c.id .write <;> simp
@@ -191,7 +200,7 @@ theorem handled_eq (env : Env) (c : Cfg) (i : Nat) (s : HState) (ev : List Event
   cases c.catch_ <;> simp [Gen.emitCaught]
 
 theorem emitWith_characterised (env : Env) (c : Cfg) (i : Nat) (inner : Nat → Step) (s : HState)
-    (hq : Quiet s) (hre : env.reenter i c.id = none) :
+    (hq : Quiet s) (hre : env.reenter i c.id = []) :
     emitWith env c i inner s = expected env c i s := by
   unfold emitWith emitTry expected outcome
   rw [runPre_eq, locked_eq env c i inner s hq hre]
@@ -273,7 +282,7 @@ theorem emitD_quiet (env : Env) (c : Cfg) (n i : Nat) (s : HState) (hq : Quiet s
   | succ n => exact emitWith_quiet env c i _ (emitD_innerOk env c n) s hq
 
 theorem emitD_characterised (env : Env) (c : Cfg) (n i : Nat) (s : HState)
-    (hq : Quiet s) (hre : env.reenter i c.id = none) :
+    (hq : Quiet s) (hre : env.reenter i c.id = []) :
     emitD env c n i s = expected env c i s := by
   cases n with
   | zero => exact emitWith_characterised env c i _ s hq hre
@@ -519,4 +528,266 @@ theorem stopH_quiet (env : Env) (c : Cfg) (k : Nat) (s : HState) (hq : Quiet s) 
   simp only []
   split <;> simp
 
+/-- a registered handler is in working order: lock free, marker clear, not stopped, its worker (if
+    any) alive with no sentinel pending -/
+def Good (p : Cfg × HState) : Prop :=
+  Quiet p.2 ∧ p.2.stopped = false ∧ (p.1.enqueue = true → p.2.workerAlive = true) ∧
+  QItem.sentinel ∉ p.2.queue
+
+def AllGood (reg : Reg) : Prop := ∀ p ∈ reg, Good p
+
+theorem queuedItem_ne_sentinel (env : Env) (c : Cfg) (i : Nat) : queuedItem env c i ≠ .sentinel := by
+  unfold queuedItem; split <;> simp
+
+theorem lockedBody_queue (env : Env) (c : Cfg) (i : Nat) (inner : Nat → Step) (hin : InnerOk inner)
+    (s : HState) (hm : s.marker = true) (hs : QItem.sentinel ∉ s.queue) :
+    QItem.sentinel ∉ (lockedBody env c i inner s).st.queue := by
+  unfold lockedBody
+  split
+  · exact hs
+  · split
+    · unfold queuePut
+      split
+      · exact hs
+      · simp only [List.mem_append, List.mem_singleton, not_or]
+        exact ⟨hs, fun h => queuedItem_ne_sentinel env c i h.symm⟩
+    · rw [(sinkWrite_ctl env c i inner hin s hm).2.2]; exact hs
+
+theorem emitWith_queue (env : Env) (c : Cfg) (i : Nat) (inner : Nat → Step) (hin : InnerOk inner)
+    (s : HState) (hq : Quiet s) (hs : QItem.sentinel ∉ s.queue) :
+    QItem.sentinel ∉ (emitWith env c i inner s).st.queue := by
+  rw [emitWith_st]
+  unfold emitTry
+  split
+  · exact hs
+  · split
+    · exact hs
+    · exact hs
+    · unfold protectedLock
+      simp only [hq.1, hq.2, Bool.false_eq_true, if_false]
+      have := lockedBody_queue env c i inner hin { s with marker := true, lockHeld := true } rfl hs
+      split <;> simp_all
+
+theorem emitD_good (env : Env) (c : Cfg) (n i : Nat) (s : HState) (hg : Good (c, s)) :
+    Good (c, (emitD env c n i s).st) ∧ (emitD env c n i s).res ≠ .blocked := by
+  obtain ⟨hq, hst, hw, hs⟩ := hg
+  have h := emitD_quiet env c n i s hq
+  obtain ⟨_, _, c3, c4, _⟩ := h.2.2
+  refine ⟨⟨h.1, c3.trans hst, fun he => c4.trans (hw he), ?_⟩, h.2.1⟩
+  cases n with
+  | zero => exact emitWith_queue env c i _ innerOk_trivial s hq hs
+  | succ n => exact emitWith_queue env c i _ (emitD_innerOk env c n) s hq hs
+
+theorem logLoop_good (env : Env) (n i : Nat) (reg : Reg) (hg : AllGood reg) :
+    AllGood (logLoop env n i reg).reg ∧ (logLoop env n i reg).res ≠ .blocked := by
+  induction reg with
+  | nil => simp [logLoop, AllGood]
+  | cons p rest ih =>
+    obtain ⟨c, s⟩ := p
+    have hs : Good (c, s) := hg (c, s) (by simp)
+    have hrest : AllGood rest := fun p hp => hg p (by simp [hp])
+    have he := emitD_good env c n i s hs
+    have ih := ih hrest
+    unfold logLoop
+    simp only []
+    split
+    · refine ⟨?_, ih.2⟩
+      intro p hp
+      simp only [List.mem_cons] at hp
+      rcases hp with rfl | hp
+      · exact he.1
+      · exact ih.1 p hp
+    · refine ⟨?_, he.2⟩
+      intro p hp
+      simp only [List.mem_cons] at hp
+      rcases hp with rfl | hp
+      · exact he.1
+      · exact hrest p hp
+
+theorem runTasks_ctl (env : Env) (c : Cfg) (ts : List Nat) (s : HState) :
+    SameCtl s (runTasks env c ts s).1 ∧ (runTasks env c ts s).1.queue = s.queue := by
+  induction ts generalizing s with
+  | nil => simp [runTasks, SameCtl]
+  | cons t rest ih =>
+    unfold runTasks
+    split
+    · have := ih { s with sink := s.sink ++ [t] }
+      exact ⟨this.1, this.2⟩
+    · exact ih s
+
+theorem completeH_good (env : Env) (ht : StderrTame env) (c : Cfg) (s : HState) (hg : Good (c, s)) :
+    Good (c, (completeH env c s).st) ∧ (completeH env c s).res = .ok := by
+  obtain ⟨hq, hst, hw, hs⟩ := hg
+  unfold completeH
+  by_cases he : c.enqueue = true
+  · have ha := hw he
+    have hns : QItem.sentinel ∉ s.queue ++ [QItem.confirm] := by simp [hs]
+    have h := workerRun_alive env c ht (s.queue ++ [.confirm]) s hns ha
+    have h2 := runTasks_ctl env c (workerRun env c (s.queue ++ [.confirm]) s).1.tasks
+      (workerRun env c (s.queue ++ [.confirm]) s).1
+    obtain ⟨⟨c1, c2, c3, c4, _⟩, cq⟩ := h2
+    rw [if_pos he, if_pos ha, if_pos h.1]
+    refine ⟨⟨⟨c1.trans (h.2.2.2.1.trans hq.1), c2.trans (h.2.2.2.2.1.trans hq.2)⟩,
+      c3.trans (h.2.2.2.2.2.trans hst), fun _ => c4.trans h.1, ?_⟩, rfl⟩
+    show QItem.sentinel ∉ (runTasks env c _ _).1.queue
+    rw [cq, h.2.1]; simp
+  · rw [if_neg he]
+    have h := runTasks_ctl env c s.tasks s
+    obtain ⟨⟨c1, c2, c3, c4, _⟩, cq⟩ := h
+    refine ⟨⟨⟨c1.trans hq.1, c2.trans hq.2⟩, c3.trans hst, fun h => absurd h he, ?_⟩, rfl⟩
+    show QItem.sentinel ∉ (runTasks env c _ _).1.queue
+    rw [cq]; exact hs
+
+theorem completeLoop_good (env : Env) (ht : StderrTame env) (reg : Reg) (hg : AllGood reg) :
+    AllGood (completeLoop env reg).reg ∧ (completeLoop env reg).res = .ok := by
+  induction reg with
+  | nil => simp [completeLoop, AllGood]
+  | cons p rest ih =>
+    obtain ⟨c, s⟩ := p
+    have hs : Good (c, s) := hg (c, s) (by simp)
+    have hrest : AllGood rest := fun p hp => hg p (by simp [hp])
+    have he := completeH_good env ht c s hs
+    have ih := ih hrest
+    unfold completeLoop
+    simp only [he.2]
+    refine ⟨?_, ih.2⟩
+    intro p hp
+    simp only [List.mem_cons] at hp
+    rcases hp with rfl | hp
+    · exact he.1
+    · exact ih.1 p hp
+
+theorem lookup_mem (hid : Nat) (reg : Reg) (p : Cfg × HState) (h : lookup hid reg = some p) : p ∈ reg := by
+  induction reg with
+  | nil => simp [lookup] at h
+  | cons q rest ih =>
+    obtain ⟨c, s⟩ := q
+    unfold lookup at h
+    split at h
+    · simp only [Option.some.injEq] at h; simp [h]
+    · simp [ih h]
+
+theorem stepW_good (env : Env) (ht : StderrTame env) (n : Nat) (w : World) (op : Op) (hg : AllGood w.reg) :
+    AllGood (stepW env n w op).w.reg ∧ (stepW env n w op).res ≠ .blocked := by
+  cases op with
+  | log i =>
+    simp only [stepW, logW]
+    split
+    · exact ⟨hg, by simp⟩
+    · split
+      · exact ⟨hg, by simp⟩
+      · exact logLoop_good env n i w.reg hg
+  | complete =>
+    simp only [stepW, completeW]
+    have := completeLoop_good env ht w.reg hg
+    exact ⟨this.1, by simp [this.2]⟩
+  | remove hid k =>
+    simp only [stepW, removeW]
+    split
+    · exact ⟨hg, by simp⟩
+    · rename_i c s hl
+      simp only [Gen.removeUnpublishesFirst, if_true]
+      have hmem := lookup_mem hid w.reg (c, s) hl
+      refine ⟨fun p hp => hg p (erase_sub hid w.reg p hp), (stopH_quiet env c k s (hg (c, s) hmem).1).2⟩
+
+/-- FOR EVERY HISTORY of log / complete / remove operations and every fault oracle: no operation ever
+    blocks and every registered handler stays in working order -/
+theorem runW_good (env : Env) (ht : StderrTame env) (n : Nat) (ops : List Op) (w : World)
+    (hg : AllGood w.reg) :
+    AllGood (runW env n ops w).1.reg ∧ Res.blocked ∉ (runW env n ops w).2.2 := by
+  induction ops generalizing w with
+  | nil => simp [runW, hg]
+  | cons op ops ih =>
+    have hs := stepW_good env ht n w op hg
+    unfold runW
+    simp only []
+    split
+    · rename_i hb; exact absurd hb hs.2
+    · rename_i x hx
+      have := ih (stepW env n w op).w hs.1
+      refine ⟨this.1, ?_⟩
+      simp only [List.mem_cons, not_or]
+      exact ⟨fun h => hs.2 h.symm, this.2⟩
+
+theorem addW_good (c : Cfg) (w : World) (hg : AllGood w.reg) : AllGood (addW c w).reg := by
+  intro p hp
+  simp only [addW, List.mem_append, List.mem_singleton] at hp
+  rcases hp with hp | rfl
+  · exact hg p hp
+  · simp [Good, Quiet, freshState]
+
+theorem addAll_good (cfgs : List Cfg) (w : World) (hg : AllGood w.reg) :
+    AllGood (cfgs.foldl (fun w c => addW c w) w).reg := by
+  induction cfgs generalizing w with
+  | nil => exact hg
+  | cons c rest ih => exact ih (addW c w) (addW_good c w hg)
+
+theorem runTasks_spec (env : Env) (c : Cfg) (hok : ∀ i, env.stderr i c.id = .ok) (ts : List Nat) (s : HState) :
+    (runTasks env c ts s).1.tasks = [] ∧
+    (runTasks env c ts s).2 = ts.flatMap (taskEvents env c) ∧
+    (runTasks env c ts s).1.sink = s.sink ++ ts.filter (fun i => (env.fault i c.id .coroBody).isNone) := by
+  induction ts generalizing s with
+  | nil => simp [runTasks]
+  | cons t rest ih =>
+    unfold runTasks
+    cases hf : env.fault t c.id .coroBody with
+    | none =>
+      have := ih { s with sink := s.sink ++ [t] }
+      simp only [List.flatMap_cons, taskEvents, hf, List.nil_append, List.filter_cons, Option.isNone_none, if_true]
+      refine ⟨this.1, this.2.1, ?_⟩
+      rw [this.2.2]; simp
+    | some e =>
+      have := ih s
+      simp only [List.flatMap_cons, taskEvents, hf, List.filter_cons, Option.isNone_some]
+      refine ⟨this.1, ?_, this.2.2⟩
+      rw [this.2.1]
+      cases c.catch_ <;> simp [print, hok, Gen.printGuardsRecordStr]
+theorem logLoop_eq_specLoop (env : Env) (n i : Nat) (reg : Reg) (hq : AllQuiet reg)
+    (hre : ∀ p ∈ reg, env.reenter i p.1.id = []) :
+    logLoop env n i reg = specLoop env i reg := by
+  induction reg with
+  | nil => rfl
+  | cons p rest ih =>
+    obtain ⟨c, s⟩ := p
+    have hs : Quiet s := hq (c, s) (by simp)
+    have hc := emitD_characterised env c n i s hs (hre (c, s) (by simp))
+    have ih := ih (fun p hp => hq p (by simp [hp])) (fun p hp => hre p (by simp [hp]))
+    unfold logLoop specLoop
+    simp only [hc, ih]
+    cases (expected env c i s).res <;> rfl
+
+theorem rawWrite_res (env : Env) (c : Cfg) (i : Nat) (s s' : HState) :
+    (rawWrite env c i s).2 = (rawWrite env c i s').2 := by
+  unfold rawWrite
+  split
+  · rfl
+  · split
+    · rfl
+    · simp only [Gen.streamFlushAfterWrite, if_true]
+      split <;> rfl
+    · rfl
+
+theorem workerRun_reports (env : Env) (c : Cfg) (hok : ∀ i, env.stderr i c.id = .ok)
+    (items : List QItem) (s : HState) (hs : QItem.sentinel ∉ items) :
+    (workerRun env c items s).2 = items.flatMap (workerReports env c) := by
+  induction items generalizing s with
+  | nil => simp [workerRun]
+  | cons it rest ih =>
+    have hrest : QItem.sentinel ∉ rest := fun h => hs (by simp [h])
+    cases it with
+    | sentinel => simp at hs
+    | confirm => simp only [workerRun, List.flatMap_cons, workerReports, List.nil_append]; exact ih s hrest
+    | bad i e =>
+      simp only [workerRun, Gen.workerCaught, if_true, Gen.workerGetArm, List.flatMap_cons, workerReports,
+        print, hok, Gen.printGuardsRecordStr]
+      simp [ih s hrest]
+    | msg i =>
+      simp only [workerRun, List.flatMap_cons, workerReports]
+      rw [rawWrite_res env c i default s]
+      cases hw : (rawWrite env c i s).2 with
+      | raised e =>
+        simp only [Gen.workerCaught, if_true, Gen.workerWriteArm, print, hok, Gen.printGuardsRecordStr]
+        simp [ih _ hrest]
+      | ok => simp [ih _ hrest]
+      | blocked => simp [ih _ hrest]
 end Emit
